@@ -218,7 +218,17 @@ def run_harness(prop, tier, seed, outdir, log, budget=None, extra_env=None):
     if os.path.isdir(outdir):
         shutil.rmtree(outdir)
     os.makedirs(outdir)
-    overlay = make_overlay([prop["go_pkg"]], prop["harness_files"])
+    # One overlay per package, holding the harness files of EVERY property that lives in it: all checks of a package
+    # then share one compiled test binary (the same one bin/setup warms) instead of compiling the package once per check.
+    files = set(prop["harness_files"])
+    try:
+        import props as _props
+        for q in _props.PROPS.values():
+            if q["go_pkg"] == prop["go_pkg"]:
+                files.update(q["harness_files"])
+    except Exception:
+        pass
+    overlay = make_overlay([prop["go_pkg"]], sorted(files))
     env = dict(GOENV, VERIF_SEED=str(seed), VERIF_TIER=tier, VERIF_OUT=outdir, VERIF_DIR=VERIF)
     env["SG_TEST_USE_XATTRS"] = env.get("SG_TEST_USE_XATTRS", "true")
     if budget:
